@@ -789,6 +789,10 @@ def check(ctx):
         r5b_reader_constants(ctx, f, rep)
         r6_feed(ctx, f, rep)
         r7_scratch(ctx, f, rep)
+        # what the update section carries was produced by serialize_member: one member encoded into a fresh Vec (a reused
+        # scratch buffer keeps the partial bytes of a failed encode and prefixes the next update with them)
+        from . import common as _cmn7
+        _cmn7.check_helpers(ctx, f, rep, 'C07-R7', {'serialize_member'})
     # with the bundled (serde-based, positional) codecs, what the writer encodes is what the reader decodes only if the
     # derived Serialize/Deserialize of the wire types are symmetric and plain (C20-R4, re-run on the configuration that
     # compiles them)
